@@ -108,6 +108,14 @@ impl<'a> Name<'a> {
             r is Err ==> dec_labels(data@, *old(position) as int, 0) is None, // @C06:accepts-everything-the-rfc-decoder-accepts,C02:valid-names-are-accepted,C11:valid-names-are-accepted
             r is Ok ==> r.unwrap().lv().len() <= 127, // @C01:output-bounded
 """, pre_body="\n        let ghost start = *position as int;\n")
+    c.bind_tail(rel, NAME_WF, 'parse', """
+        proof {
+            match &vx_r {
+                Ok(vx_n) => { assert(vx_n.lv() == labels_view(vx_n.labels@)); assert(Name::wf_dec(data@, start, vx_n, *position as int)); }
+                Err(_) => {}
+            }
+        }
+""")
     c.ghost(rel, NAME_WF, 'parse', "Ok(Self { labels })", "        proof { lemma_labels_view_len(labels@); }", where='before')
     c.loop_spec(rel, NAME_WF, 'parse', 0, """
             invariant_except_break
